@@ -196,7 +196,10 @@ def run_config(job):
             if ptfile:
                 pt.remove()
         elif cfg["method"] == "gibbs":
-            g = oqupy.GibbsTempo(oqupy.System(h0), bath, oqupy.GibbsParameters(n_steps=NSTEPS, epsrel=EPSREL))
+            # the zero of energy is a convention: every other configuration counts energies from far below the spectrum
+            # (all levels at 16..17 T above zero)
+            hg = h0 + (16.0 * float(corr.temperature) * np.eye(d) if idx % 2 == 0 else 0.0)
+            g = oqupy.GibbsTempo(oqupy.System(hg), bath, oqupy.GibbsParameters(n_steps=NSTEPS, epsrel=EPSREL))
             g.compute(progress_type="silent")
             states = [g.get_state()]
     except Exception as ex:  # pylint: disable=broad-except
